@@ -9,6 +9,7 @@
 //	           read-back vs the Lean write loop; SPEC: notifications/positions delimit exactly the batch
 //	system     system: the assembled server (lrsrv.Start), direct + RPC + raw-packet writes, reads through backend.Querier
 //	           and the RPC client; SPEC: read-back = concatenation of acknowledged batches per partition
+//	restart    graceful stop right after an acknowledgement, restart, read back (new and existing partition)
 //	faults     environment faults (context cancelled / no descriptor left) during a Write that spans a chunk roll-over
 //	tailrace   deterministic replay of #34: scripted journal under the real journal iterators vs the observation models
 //	xread      concurrent readers on separate connections over a quiescent store: each read = exactly the partition's events
@@ -584,6 +585,7 @@ func main() {
 	sectionPacket(rng.Fork("packet"), cs.pkt)
 	sectionWriteLoop(rng.Fork("writeloop"), cs.wl)
 	sectionSystem(rng.Fork("system"), cs.sys)
+	sectionRestart(rng.Fork("restart"))
 	sectionFaults(rng.Fork("faults"), cs.wl)
 	sectionTailRace(rng.Fork("tailrace"), cs.tail)
 	sectionXRead(rng.Fork("xread"))
